@@ -53,6 +53,22 @@ def run (cb : Option Cb) (flag : Bool) : List Site → Nat → Bool → Outcome
       | .propagate => .cancelled i'
       | .swallow => run cb flag rest i' true
 
+/-- `check_progress` when the callback itself calls `Context::cancel()` during invocation
+`flagAt`: the flag is tested *after* the callback, so that very checkpoint already fails. -/
+def checkProgressF (cb : Cb) (flagAt : Nat) (flag : Bool) (i : Nat) : Bool × Nat × Bool :=
+  let flag' := flag || (i == flagAt)
+  (cb i && !flag', i + 1, flag')
+
+/-- Run with a callback that sets the cancel flag during invocation `flagAt`. -/
+def runF (cb : Cb) (flagAt : Nat) : List Site → Nat → Bool → Bool → Outcome
+  | [], i, _, logged => .finished i logged
+  | s :: rest, i, flag, logged =>
+    let (ok, i', flag') := checkProgressF cb flagAt flag i
+    if ok then runF cb flagAt rest i' flag' logged
+    else match s.disp with
+      | .propagate => .cancelled i'
+      | .swallow => runF cb flagAt rest i' flag' true
+
 def AllPropagate (sites : List Site) : Prop := ∀ s ∈ sites, s.disp = .propagate
 
 /-- Well-formed progress trace: steps ≥ 1, never above a non-zero total, strictly increasing
@@ -67,6 +83,7 @@ def traceWf : List Tick → Bool
 
 /-! ### line protocol
 `cancel n=<callbacks in the uncancelled run> k=<index answered false>` → `cancelled <k+1>`
+`cancelin n=<…> k=<index whose callback calls Context::cancel()>` → `cancelled <k+1>`
 `flag n=<…>` → `cancelled 1` (flag set before the operation; callback still invoked once)
 `wf trace=<phase:step:total,…>` → `wf` | `bad`
 -/
@@ -90,6 +107,10 @@ def handle (toks : List String) : String :=
   | "cancel" :: rest =>
     match (field rest "n").toNat?, (field rest "k").toNat? with
     | some n, some k => outStr (run (some (fun i => i != k)) false (skeleton n) 0 false)
+    | _, _ => "bad-req"
+  | "cancelin" :: rest =>
+    match (field rest "n").toNat?, (field rest "k").toNat? with
+    | some n, some k => outStr (runF (fun _ => true) k (skeleton n) 0 false false)
     | _, _ => "bad-req"
   | "flag" :: rest =>
     match (field rest "n").toNat? with
